@@ -118,10 +118,39 @@ def reachable_without_edges(body, start, removed_edges, avoid=()):
 
 
 def must_pass_edge(body, target_bb, edge):
-    """True iff every path entry->target_bb uses CFG edge `edge` (a,b)."""
+    """True iff every path entry->target_bb uses CFG edge `edge` (a,b).  Under `restricted_paths(body, avoid)` only paths that
+    stay clear of the avoided blocks are considered."""
     if target_bb == 0:
         return False
+    av = getattr(body, "_avoid", None)
+    if av:
+        if 0 in av or target_bb in av or target_bb not in body.reachable(0, avoid=av):
+            return False
+        return target_bb not in reachable_without_edges(body, 0, {edge}, avoid=av)
     return target_bb not in reachable_without_edges(body, 0, {edge})
+
+
+class restricted_paths:
+    """`with restricted_paths(body, avoid):` - inside, facts_at / facts_at_e / known_ge / must_pass_edge speak about the paths
+    from entry that never enter a block of `avoid` (facts that hold on every such path, mutations only on such paths)"""
+
+    def __init__(self, body, avoid):
+        self.body, self.avoid = body, frozenset(avoid)
+
+    def _clear(self):
+        for a in ("_facts_at", "_facts_at_e"):
+            if hasattr(self.body, a):
+                delattr(self.body, a)
+
+    def __enter__(self):
+        self._clear()
+        self.body._avoid = self.avoid
+        return self
+
+    def __exit__(self, *a):
+        self.body._avoid = None
+        self._clear()
+        return False
 
 
 def assigns_to_return(body):
@@ -681,9 +710,10 @@ def _mutated_between(body, root, edge, use_bb):
     """Is the container `root` possibly mutated on a path from the guard edge to use_bb?"""
     if root is None:
         return True
-    after_guard = body.reachable(edge[1])
+    av = getattr(body, "_avoid", None) or ()
+    after_guard = body.reachable(edge[1], avoid=av) if av else body.reachable(edge[1])
     for bb2, t in body.calls():
-        if bb2 not in after_guard or bb2 == use_bb:
+        if bb2 not in after_guard or bb2 == use_bb or bb2 in av:
             continue
         name = t["f"].get("name")
         if name not in CONTAINER_MUTATORS and not (t["f"].get("q") or "").startswith("std::mem::"):
@@ -698,7 +728,7 @@ def _mutated_between(body, root, edge, use_bb):
     return False
 
 
-def _same_value(body, x, y, edge, use_bb):
+def _same_value(body, x, y, edge, use_bb, depth=0):
     """same_expr, extended: two len()/is_empty() calls on the same container are the same value when the
     container is not mutated between the guard and the use."""
     if _same_expr(x, y):
@@ -710,6 +740,9 @@ def _same_value(body, x, y, edge, use_bb):
             rx, ry = _container_root(px.args[0]), _container_root(py.args[0])
             if rx is not None and rx == ry and not _mutated_between(body, rx, edge, use_bb):
                 return True
+    # the same arithmetic over such values (`buf.len() / size` computed twice)
+    if depth < 4 and px.k == "bin" and py.k == "bin" and px.op == py.op:
+        return _same_value(body, px.a, py.a, edge, use_bb, depth + 1) and _same_value(body, px.b, py.b, edge, use_bb, depth + 1)
     return False
 
 
